@@ -4,6 +4,13 @@ _BASE_NOTE = ("Trusted: CrossHair's symbolic models of str/int/list and z3 (for 
               "bounds per condition as written to evidence (pre: lines). Nothing is claimed outside the bounds.")
 
 CLAIMS = {
+    "C12": {
+        "technique": "bounded symbolic execution (CrossHair/z3): schema -> SDL -> schema round trips over generator and option choice variables, call-history sequences against a fresh-interpreter reference, symbolic description text through print_description; z3 regex equivalence for _INT_RE",
+        "regex": True,
+        "text": "Round trip: generator schemas (12 default kinds x 4 recursion patterns) and a code-built schema x 16 option sets: idempotent text, structurally equal rebuilt schema, equal reprint. History: every sequence of <= 3 earlier calls x 12 calls under test equals the first call of a fresh interpreter. "
+                "Description kernel: every representable description of <= 2/3 symbolic characters at 12 print positions re-lexes to itself. _INT_RE == IntValue for every length.",
+        "note": _BASE_NOTE + " Descriptions long enough to be re-wrapped are outside the claim.",
+    },
     "C11": {
         "technique": "bounded symbolic execution (CrossHair/z3) over generator choice variables: build_schema on generated type-system documents vs the generator's declared-content record; labelled invalid documents",
         "text": "Content: descriptions, deprecations, 12 default kinds, 4 recursion patterns, schema definition, 8 presence masks, mutation. Layout: members of any one type split over 1-2 extend blocks x 3 definition orders x extension placement x ignore_extensions x additional_types. "
